@@ -49,10 +49,34 @@ def range_enum(ctx):
 
 
 def find_parser(ctx):
+    """the range parser: the function in which the satisfiable-list variant is constructed - or, when that is an inner stage
+    of the parser (a private constructor `from_satisfiable(ranges)`, a per-set helper `resolve_set(text, len)` behind a
+    dispatching `parse`), the outermost function of the same source file that alone calls it"""
+    import re as _re
     adt, variant = range_enum(ctx)
     sites = aggregates(ctx.facts, adt, variant)
-    fns = sorted({b["name"] for b, _, _ in sites})
-    return adt, variant, fns, sites
+    fns = {b["name"] for b, _, _ in sites}
+
+    def parent(n):
+        return _re.sub(r"(::\{closure#\d+\})+$", "", n)
+
+    def file_of(n):
+        b = ctx.facts.bodies.get(n)
+        sp = (b or {}).get("span") or {}
+        return sp.get("file")
+    for _ in range(3):
+        nxt = set()
+        for fn in fns:
+            callers = {parent(b["name"]) for b in ctx.facts.bodies.values() if b["kind"] != "promoted" and parent(b["name"]) != fn and
+                       any(t["callee"].get("res_path") == fn for i, t in ctx.facts.calls(b))}
+            if len(callers) == 1 and file_of(next(iter(callers))) == file_of(fn) and file_of(fn) is not None:
+                nxt |= callers
+            else:
+                nxt.add(fn)
+        if nxt == fns:
+            break
+        fns = nxt
+    return adt, variant, sorted(fns), sites
 
 
 def fromstr_events(o, units=()):
